@@ -128,7 +128,10 @@ func shadowPrograms(thorough bool) (progs []*semProg, descr []string) {
 				}
 				for _, pre := range pres {
 					for _, in := range inner {
-						for _, post := range posts {
+						for pi, post := range posts {
+							if !thorough && pi > 0 && kind != "bare" {
+								continue // quick: the second POST form only for the bare block
+							}
 							add("shadow1", 8, shadowShape{name, pre, kind, redecl, in, post})
 						}
 					}
